@@ -246,7 +246,7 @@ def gen_pair(rng, box, style):
     return x1, x2, False
 
 
-ENERGY_KINDS = ["up", "down", "peak", "valley", "flat", "ties", "random", "plateau"]
+ENERGY_KINDS = ["up", "down", "peak", "valley", "flat", "ties", "random", "plateau", "tiny", "tiny"]
 
 
 def gen_energies(rng, n, kind):
@@ -260,6 +260,13 @@ def gen_energies(rng, n, kind):
     elif kind == "valley":
         m = rng.randrange(n)
         e = [abs(i - m) * 0.5 - rng.choice([0, 0.125]) for i in range(n)]
+    elif kind == "tiny":
+        # local extrema whose energy differences are far below any absolute threshold (2^-32 .. 2^-46):
+        # the raw tangent of such an image is tiny but NOT zero and must still be normalised
+        m = rng.randrange(n)
+        s = 2.0 ** -rng.randrange(32, 47)
+        sign = rng.choice([-1.0, 1.0])
+        e = [0.5 + sign * s * (abs(i - m) + rng.choice([0, 0.5])) for i in range(n)]
     elif kind == "flat":
         e = [0.5] * n
     elif kind == "ties":
@@ -415,6 +422,8 @@ def corr_interp(ctx, rng, b):
         b.add([new], lambda ans: None)
         hist = [new]
         for ci in range(rng.randrange(3, 7)):
+            if ci and rng.random() < 0.4:
+                box = gen_box(rng, d)             # same object, same dimension, different box
             style = rng.choice(["axis", "axis", "pyth", "free", "same"])
             x1, x2, exact = gen_pair(rng, box, style)
             attempts = rng.choice([0, 0, 1, 2, 3, 4])
@@ -781,7 +790,18 @@ def pred_gradient(n, band, e, g, ks) -> list[tuple[str, str]]:
         t = tau[i - 1]
         tt = float(t @ t)
         if tt == 0.0:
-            continue                                          # coincident images: no tangent
+            # a tangent may vanish only where images coincide; on a straight stretch with distinct
+            # neighbours every upwind choice points along the band, however small the energy differences
+            up, un = band_a[i - 1] - band_a[i], band_a[i + 1] - band_a[i]
+            lp, ln = float(np.linalg.norm(up)), float(np.linalg.norm(un))
+            if lp > 0 and ln > 0 and float(up @ un) < -0.999999 * lp * ln:
+                gi = np.array(g[i], dtype=float)
+                along = un / ln
+                if float(np.max(np.abs(gi - (gi @ along) * along))) > 1e-9 * scale:
+                    out.append(("tangent-vanishes:find_tangent_differences",
+                                f"image {i} lies on a straight stretch between distinct neighbours but its tangent is "
+                                f"the zero vector: the whole true gradient is dropped instead of its along-band part"))
+            continue
         if abs(tt - 1.0) > 1e-9:
             out.append(("tangent-unit:find_tangent_differences", f"tangent of image {i} has squared length {tt}"))
             continue
@@ -847,7 +867,10 @@ def pred_interp(k, density, mx, box, calls) -> list[tuple[str, str]]:
     """image count bounds, ends, images in the box, density restored — over a sequence on one object"""
     out = []
     neb = new_neb(TablePot(), k, density, mx)
-    for (x1, x2, attempts) in calls:
+    box0 = box
+    for call in calls:
+        x1, x2, attempts = call[0], call[1], call[2]
+        box = call[3] if len(call) > 3 else box0        # the same object searched in a different box
         coords = new_coords(box, x1)
         band = neb.initial_interpolation(coords, np.array(x2, dtype=float), attempts, None)
         n = neb.n_images
@@ -943,6 +966,9 @@ def predicates(ctx: Ctx) -> None:
         ctx.stats.case({"stream": "predicate-corpus", "cands": case[0]}, True)
         _run_pred(ctx, pred_candidates, case, "find_ts_candidates", {"pred": "candidates", "case": list(case)})
     corpus_i = [(1.0, 1.0, 10, [(-1.0, 9.0)], [([0.0], [8.0], 0), ([0.0], [8.0], 2), ([0.0], [8.0], 0)]),
+                # one object, same band size, two different boxes (stale cached bounds)
+                (1.0, 1.0, 10, [(-4.0, 4.0), (-4.0, 4.0)], [([-1.0, 0.0], [1.0, 0.0], 0, [(-4.0, 4.0), (-4.0, 4.0)]),
+                                                           ([-1.0, 0.0], [1.0, 0.0], 0, [(-2.0, 2.0), (-1.0, 0.5)])]),
                 (1.0, 10.0, 50, [(-3.0, 3.0), (-2.0, 2.0)], [([-3.0, -2.0], [3.0, 2.0], 3), ([0.5, 0.5], [0.5, 0.5], 0)])]
     for case in corpus_i:
         ctx.stats.case({"stream": "predicate-corpus", "interp": case[2]}, True)
@@ -969,12 +995,16 @@ def predicates(ctx: Ctx) -> None:
         d = rng.choice([1, 2, 3, 4])
         box = gen_box(rng, d)
         calls = []
+        box0 = box
         for _ in range(rng.randrange(2, 6)):
+            if calls and rng.random() < 0.35:                    # same object, other box of the same dimension
+                box = gen_box(rng, d)
             x1, x2, _e = gen_pair(rng, box, rng.choice(["axis", "pyth", "free", "same"]))
             if rng.random() < 0.2:                               # ends on the faces of the box
                 x1 = [rng.choice(bb) for bb in box]
                 x2 = [rng.choice(bb) for bb in box]
-            calls.append((x1, x2, rng.choice([0, 0, 1, 2, 3, 4])))
+            calls.append((x1, x2, rng.choice([0, 0, 1, 2, 3, 4]), box))
+        box = box0
         case = (rng.choice([1.0, 50.0]), rng.choice([0.5, 1.0, 3.0, 7.3, 10.0, 40.0]),
                 rng.choice([10, 11, 15, 20, 50]), box, calls)
         ctx.stats.case({"stream": "predicate-interp", "d": d}, True)
